@@ -513,6 +513,8 @@ class Folder:
                     return FuncVal(cv.methods[e.attr], closure=None, bound_self=base, home=(cv.method_home or {}).get(e.attr, cv.home))
                 if e.attr == "__dict__":
                     return base.fields
+                if getattr(base, "closed", False):
+                    raise Raised("AttributeError", e)          # a record the rule declared complete: the object has no other attribute
                 raise Undecidable(f"field {e.attr} of {base.cls}")
             if isinstance(base, Opaque):
                 return Opaque(f"{base.text}.{e.attr}")
